@@ -45,6 +45,12 @@ CLAIMED = {
  "C10": dict(cat="proof", tech="Coq containment theorems (offset <= span; non-empty view inside the source span) on spec and implementation model; boundary-stream correspondence",
    text="Theorems C10_contained (implementation model: 0 <= offset <= source span, and offset + view span <= source span for a non-empty view - empty slices at the end of an extent included), C10_contained_spec, C10_offset_lt_span, C10_chain_sub_valid. Correspondence: the submdspan driver with begin == extent in one/several dimensions, empty strided slices, zero-extent sources; the containment predicate is evaluated on the implementation's printed offsets and spans at every level of a chain.",
    ref="4/C10"),
+ "C03": dict(cat="proof", tech="Coq theorems on the access forms of the view model (forms agree, = accessor.access(handle, mapping(idx)), address in span, write frame); per-form address correspondence incl. user layout/accessors, ASan",
+   text="Theorems C03_forms_agree (separate indices / std::array / std::span give the accessor the same (handle, offset) - the forms differ in how often arguments are converted to index_type, which is idempotent), C03_access_is_accessor_of_mapping, C03_default_address (inside [handle, handle+span) by C01), C03_distinct_elements, C03_write_frame (a write changes exactly its own heap cell). Correspondence: programs over element types {int, const int, double, struct}, all five layouts plus a user-defined layout, accessors {default, stateful accessor with non-pointer handle that logs its (handle, offset) calls, proxy reference}, index argument types int8..uint64 and a class convertible to index_type; every available form (operator[] / operator() x pack/array/span, rank-1 operator[]) is compared with accessor().access(data_handle(), mapping()(idx...)) and with the model; writes are checked against a canary-padded buffer; one ASan+UBSan configuration.",
+   ref="4/C03", note=NOTE_COMMON + " Partial: that a call syntax selects the modelled operator body (overload resolution) is observed on the generated programs, not proved."),
+ "C11": dict(cat="proof", tech="Coq operation machine on pools of views with invariant over arbitrary op sequences (induction on the op list); step-by-step correspondence of generated straight-line programs, attribute and emulation builds",
+   text="Theorems C11_ctor_components, C11_convert_components, C11_assign_eq, C11_swap_exchanges, C11_swap_involutive, C11_designation_invariant (for every sequence of copy/move/assign/swap/convert operations each pool entry designates the same elements as an initial view; the machine has no heap component, so no operation reads or writes elements), C11_same_view_same_elements. Correspondence: generated programs of 6-12 (thorough up to 40) operations over chains of convertible mdspan types; after every operation (handle, handle tag, accessor state, extents, strides) of all live views and an element-buffer checksum are compared with the model, in [[no_unique_address]] and base-class-emulation builds (hook MDSPAN_VERIF_FORCE_NO_UNIQUE_ADDRESS_EMULATION).",
+   ref="4/C11", note=NOTE_COMMON + " Partial: the compressed-pair specialisations / EBO emulation have no model content and are covered by building each configuration; overload resolution is observed."),
 }
 PENDING_REASON = "check under construction in this session (Coq theorems and correspondence driver not yet committed); not claimed until both exist"
 
